@@ -318,6 +318,15 @@ class Engine:
     def op_tick(self, s):
         self.clock.tick(s["ms"])
 
+    def op_reopen(self, s):
+        """Continue through a FRESH handle (nothing cached on the old one may matter, nothing may be missing on the new one)."""
+        import datashard
+
+        if self.open_txns:
+            return  # open transactions live on the current handle
+        self.t = datashard.load_table(self.location)
+        self.labels["reopened"] += 1
+
     def op_append(self, s):
         rows = self.rows(s["n"])
         self._guard("append", lambda: self.t.append_records(rows))
@@ -630,6 +639,7 @@ def step_strategy(gc=True, clock_ticks="forward", props_ops=True, open_txn=True)
         (2, st.builds(lambda a, d, e: {"op": "txn", "appends": a, "delete": d, "expire": e},
                       st.lists(st.integers(1, 2), max_size=3), st.lists(st.integers(0, 8), max_size=2), st.one_of(st.none(), CUT))),
         (1, st.just({"op": "failed_commit"})),
+        (1, st.just({"op": "reopen"})),
     ]
     if ticks is not None:
         ss.append((3, st.builds(lambda ms: {"op": "tick", "ms": ms}, ticks)))
